@@ -98,6 +98,10 @@ class Poly:
 
 def atom_s(a):
     if isinstance(a, tuple):
+        if not a:
+            return "()"
+        if not isinstance(a[0], str):
+            return "(" + ",".join(atom_s(x) if isinstance(x, tuple) else repr(x) for x in a) + ")"
         if a and a[0] in ("L", "C", "S"):
             return "%s(%s)" % (a[0], a[1])
         return "%s(%s)" % (a[0], ",".join(atom_s(x) if isinstance(x, tuple) else repr(x) if isinstance(x, Poly) else str(x) for x in a[1:]))
